@@ -1046,7 +1046,14 @@ def replay_check(pid, path):
     nm = Names(case['base'], case['suffix'])
     ls, _ = run_impl_one(impl, case)
     mo = run_exec(model, [lines_of(case, False)], (), chunks=1)[0][0]
-    bits, infos, _, _ = verdicts(case, model, ls)
+    # files of the OTHER sinks of a probe (wo) are not this sink's business: the oracles below see the directory without them
+    onm = []
+    for o in case['ops']:
+        if o[0] == 'wo':
+            b, _, sx = o[1].rpartition(b'.')
+            onm.append(Names(b, sx) if b else Names(sx, b''))
+    mine = [[e for e in l if not any(e[0] == x.active or x.parse(e[0]) for x in onm)] if l is not None else None for l in ls]
+    bits, infos, _, _ = verdicts(case, model, mine)
     print('configuration  L=%d N=%d options=%d granularity=%dms zone=UTC%+dmin locale=%s file=%s t0=%d' % (case['L'], case['N'], case['opts'], case['gran'], case.get('tz', 0), case.get('locale') or 'C.UTF-8', nm.active.decode(), case['t0']))
     for i, o in enumerate([None] + list(case['ops'])):
         print('--- after operation %d: %s' % (i, show_op(o)))
